@@ -11,39 +11,27 @@ set_option linter.unusedVariables false
 namespace Grexv
 open Spec
 
-/-- every value is spelled by atoms that are plain code points -/
+/-- every value is spelled by atoms -/
 def ValsOK (vals : List Str) : Prop :=
-  ∀ v ∈ vals, ∃ as, as ≠ [] ∧ AtomsOK as ∧ (∀ a ∈ as, ∃ c, a = Atom.chr c) ∧ v = untok as
+  ∀ v ∈ vals, ∃ as, as ≠ [] ∧ AtomsOK as ∧ v = untok as
 
 theorem valsOK_ass (vals : List Str) (h : ValsOK vals) (hne : vals ≠ []) :
-    ∃ ass, AssOK ass ∧ vals = ass.map untok ∧ ∀ as ∈ ass, ∀ a ∈ as, ∃ c, a = Atom.chr c := by
+    ∃ ass, AssOK ass ∧ vals = ass.map untok := by
   induction vals with
   | nil => exact absurd rfl hne
   | cons v r ih =>
-    obtain ⟨as, hasne, hasok, hchr, rfl⟩ := h v List.mem_cons_self
+    obtain ⟨as, hasne, hasok, rfl⟩ := h v List.mem_cons_self
     by_cases hr : r = []
     · subst hr
-      refine ⟨[as], ⟨by simp, ?_⟩, rfl, ?_⟩
-      · intro x hx; simp at hx; subst hx; exact ⟨hasne, hasok⟩
-      · intro x hx; simp at hx; subst hx; exact hchr
-    · obtain ⟨ass, hok, hr', hc⟩ := ih (fun x hx => h x (List.mem_cons_of_mem _ hx)) hr
-      refine ⟨as :: ass, ⟨by simp, ?_⟩, by rw [hr']; rfl, ?_⟩
-      · intro x hx
-        simp only [List.mem_cons] at hx
-        rcases hx with rfl | hx
-        · exact ⟨hasne, hasok⟩
-        · exact hok.2 x hx
-      · intro x hx
-        simp only [List.mem_cons] at hx
-        rcases hx with rfl | hx
-        · exact hchr
-        · exact hc x hx
-
-theorem valsOK_chr (vals : List Str) (h : ValsOK vals) : ∀ s ∈ vals, ∀ a ∈ tokens s, ∃ c, a = Atom.chr c := by
-  intro s hs a ha
-  obtain ⟨as, _, hok, hchr, rfl⟩ := h s hs
-  rw [tokens_untok as hok] at ha
-  exact hchr a ha
+      refine ⟨[as], ⟨by simp, ?_⟩, rfl⟩
+      intro x hx; simp at hx; subst hx; exact ⟨hasne, hasok⟩
+    · obtain ⟨ass, hok, hr'⟩ := ih (fun x hx => h x (List.mem_cons_of_mem _ hx)) hr
+      refine ⟨as :: ass, ⟨by simp, ?_⟩, by rw [hr']; rfl⟩
+      intro x hx
+      simp only [List.mem_cons] at hx
+      rcases hx with rfl | hx
+      · exact ⟨hasne, hasok⟩
+      · exact hok.2 x hx
 
 /-- the filter of `create_ranges_of_repetitions` -/
 theorem createRanges_count (cfg : Config) (m : SubMap) : ∀ rp ∈ createRanges cfg m, (rp.1.2 - rp.1.1) / rp.2.length > cfg.minRep := by
@@ -131,7 +119,7 @@ theorem convertRepsAux_inv (cfg : Config) (hmr : 1 ≤ cfg.minRep) : ∀ (fuel :
       obtain ⟨g0, hg0, rfl⟩ := hg
       rcases hsp g0 hg0 with ⟨s, hs, rfl⟩ | ⟨sub, hsubne, hsubmem, hsl0, n, hn1, hn2, rfl⟩
       · -- an original grapheme
-        obtain ⟨as, hasne, hasok, hchr, rfl⟩ := hv s hs
+        obtain ⟨as, hasne, hasok, rfl⟩ := hv s hs
         simp only [Grapheme.ofStr, Grapheme.chars, Grapheme.reps, Grapheme.min, Grapheme.max, List.map_cons, List.map_nil,
           convertRepsAux_single, Option.getD_none]
         refine ⟨?_, ?_, (by first | rfl | trivial)⟩
@@ -139,14 +127,10 @@ theorem convertRepsAux_inv (cfg : Config) (hmr : 1 ≤ cfg.minRep) : ∀ (fuel :
           refine ⟨⟨[as], ⟨by simp, ?_⟩, rfl⟩, Nat.le_refl _, Or.inl ⟨(by first | rfl | trivial), (by first | rfl | trivial), (by first | rfl | trivial), (by first | rfl | trivial)⟩⟩
           intro x hx; simp at hx; subst hx; exact ⟨hasne, hasok⟩
         · simp only [GSem]
-          refine ⟨?_, Nat.le_refl _, Or.inl (by first | rfl | trivial)⟩
-          intro s hs' a ha
-          simp at hs'; subst hs'
-          rw [tokens_untok as hasok] at ha
-          exact hchr a ha
+          exact ⟨Nat.le_refl _, Or.inl (by first | rfl | trivial)⟩
       · -- a counted grapheme cut out of the values
         have hvsub := valsOK_sub ss sub hv hsubmem
-        obtain ⟨ass, hassok, hsubeq, hasschr⟩ := valsOK_ass sub hvsub hsubne
+        obtain ⟨ass, hassok, hsubeq⟩ := valsOK_ass sub hvsub hsubne
         have hcounted : Counted n n := Or.inr ⟨rfl, by omega⟩
         have hn1000 : n ≤ 1000 := by omega
         have hsublen : sub.length ≤ 1000 := by omega
@@ -158,7 +142,7 @@ theorem convertRepsAux_inv (cfg : Config) (hmr : 1 ≤ cfg.minRep) : ∀ (fuel :
           · simp only [GOK]
             exact ⟨⟨ass, hassok, hsubeq⟩, by omega, Or.inr ⟨hcounted, hn1000, Or.inl (by first | rfl | trivial)⟩⟩
           · simp only [GSem]
-            exact ⟨valsOK_chr sub hvsub, Nat.le_refl _, Or.inl (by first | rfl | trivial)⟩
+            exact ⟨Nat.le_refl _, Or.inl (by first | rfl | trivial)⟩
         | some reps =>
           simp only [Option.getD_some]
           have hrec := ih sub reps hvsub hsublen hf
@@ -188,6 +172,6 @@ theorem convertRepsAux_inv (cfg : Config) (hmr : 1 ≤ cfg.minRep) : ∀ (fuel :
           · simp only [GOK]
             refine ⟨⟨ass, hassok, hsubeq⟩, by omega, Or.inr ⟨hcounted, hn1000, Or.inr ⟨h2, hrne, hrl⟩⟩⟩
           · simp only [GSem]
-            exact ⟨valsOK_chr sub hvsub, Nat.le_refl _, Or.inr ⟨hspec.1, hsl, fun r hr => (hrec r hr).2.2⟩⟩
+            exact ⟨Nat.le_refl _, Or.inr ⟨hspec.1, hsl, fun r hr => (hrec r hr).2.2⟩⟩
 
 end Grexv
